@@ -308,7 +308,15 @@ func cmdDump(args []string) int {
 		if len(args) > 1 && !strings.Contains(o.Name, args[1]) {
 			continue
 		}
-		if len(args) > 1 {
+		if len(args) > 2 {
+			// explicit path: comma separated block indices
+			var gs []Term
+			ps := strings.Split(args[2], ",")
+			for k := 0; k+1 < len(ps); k++ {
+				gs = append(gs, fmt.Sprintf("e_b%s_b%s", ps[k], ps[k+1]))
+			}
+			fmt.Printf("; ===== %s [%s] %s path %s\n%s\n", o.Name, o.Kind, o.Desc, args[2], o.scriptWith(and(gs...), -1))
+		} else if len(args) > 1 {
 			fmt.Printf("; ===== %s [%s] %s\n%s\n", o.Name, o.Kind, o.Desc, o.script())
 		} else {
 			fmt.Printf("%s [%s] %v %s\n", o.Name, o.Kind, o.Props, o.Desc)
